@@ -49,21 +49,33 @@ def menu(pair):
                     ("kids_del0", n)]
         if "kmap" in names:
             evs += [("kmap_set", n, "a"), ("kmap_set", n, "b"),
-                    ("kmap_del", n, "a")]
+                    ("kmap_del", n, "a"), ("kmap_update2", n)]
     evs.append(("unregister",))
+    evs.append(("gc_owner_b",))
     return evs
 
 
+class Owner:
+    def __init__(self):
+        self.calls = []
+
+    def m(self, obj, name, old, new):
+        self.calls.append((id(obj), name))
+
+
 class World:
-    def __init__(self, pair):
+    def __init__(self, pair, eq=False):
         self.pair = pair
-        self.cls = G.make_node_class() if False else None
-        pool = G.make_pool()
+        self.eq = eq
+        pool = G.make_pool(eq=eq)
         self.cls = type(pool[0])
         self.nodes = [pool[0]]
         self.legacy = []
         self.obs = []
         legacy, obs = self.legacy, self.obs
+        self.owner_a = Owner()
+        self.owner_b = Owner()
+        self.equal_link = False
 
         def lh(obj, name, old, new):
             legacy.append((id(obj), name))
@@ -73,6 +85,8 @@ class World:
         self.lh, self.oh = lh, oh
         self.root = self.nodes[0]
         self.root.on_trait_change(lh, PAIRS[pair][0])
+        self.root.on_trait_change(self.owner_a.m, PAIRS[pair][0])
+        self.root.on_trait_change(self.owner_b.m, PAIRS[pair][0])
         self.root.observe(oh, PAIRS[pair][1])
         self.registered = True
 
@@ -85,6 +99,19 @@ class World:
     def clear(self):
         self.legacy.clear()
         self.obs.clear()
+        self.owner_a.calls.clear()
+        if self.owner_b is not None:
+            self.owner_b.calls.clear()
+
+    def methods_agree(self):
+        """bound-method handlers must see what the function handler sees"""
+        if self.owner_a.calls != self.legacy:
+            return "handler of owner A got %r, function handler %r" % (
+                self.owner_a.calls, self.legacy)
+        if self.owner_b is not None and self.owner_b.calls != self.legacy:
+            return "handler of owner B got %r, function handler %r" % (
+                self.owner_b.calls, self.legacy)
+        return None
 
     def watch(self):
         return G.watch(self.root, [G.P(PAIRS[self.pair][1])])
@@ -94,6 +121,8 @@ def enabled(w, ev):
     k = ev[0]
     if k == "unregister":
         return w.registered
+    if k == "gc_owner_b":
+        return w.owner_b is not None and w.registered
     if ev[1] >= len(w.nodes):
         return False
     if len(w.nodes) > 7 and k not in ("kids_pop", "kids_del0", "kmap_del",
@@ -107,6 +136,8 @@ def enabled(w, ev):
         return len(d.get("kids", ())) >= 1
     if k == "kmap_del":
         return ev[2] in d.get("kmap", {})
+    if k == "kmap_update2":
+        return "a" in d.get("kmap", {}) and "b" not in d.get("kmap", {})
     return True
 
 
@@ -115,15 +146,27 @@ def apply(w, ev):
     k = ev[0]
     if k == "unregister":
         w.root.on_trait_change(w.lh, PAIRS[w.pair][0], remove=True)
+        w.root.on_trait_change(w.owner_a.m, PAIRS[w.pair][0], remove=True)
+        if w.owner_b is not None:
+            w.root.on_trait_change(w.owner_b.m, PAIRS[w.pair][0],
+                                   remove=True)
         w.root.observe(w.oh, PAIRS[w.pair][1], remove=True)
         w.registered = False
         return ("none", None)
+    if k == "gc_owner_b":
+        w.owner_b = None
+        gc.collect()
+        return ("none", None)
     o = w.nodes[ev[1]]
     if k == "child":
+        old = o.__dict__.get("child")
         o.child = w.fresh() if ev[2] == "fresh" else None
+        w.equal_link = w.eq and old is not None and ev[2] == "fresh"
         return ("link", (o, "child"))
     if k == "kids_assign":
+        old = o.__dict__.get("kids")
         o.kids = [w.fresh(), w.fresh()]
+        w.equal_link = w.eq and old is not None and len(old) == 2
         return ("link", (o, "kids"))
     if k.startswith("kids_"):
         c = o.kids
@@ -145,6 +188,10 @@ def apply(w, ev):
     if k == "kmap_del":
         c = o.kmap
         del c[ev[2]]
+        return ("container", c)
+    if k == "kmap_update2":
+        c = o.kmap
+        c.update({"a": w.fresh(), "b": w.fresh()})
         return ("container", c)
     raise AssertionError(ev)
 
@@ -179,18 +226,25 @@ def check_last(ctx, w, ev, hist):
         nonlocal good
         good = False
         ctx.violation("C16:%s:%s:%s" % (kind, w.pair, ev[0]), msg,
-                      pair=w.pair, history=hist,
+                      pair=w.pair, history=hist, eq=w.eq,
                       legacy=repr(w.legacy), observe=repr(w.obs))
     materialise(w, ev)
     W = w.watch() if w.registered else set()
     w.clear()
     ctx.tr()
     kind, subject = apply(w, ev)
+    err = w.methods_agree()
+    if err:
+        bad("methods-disagree", err)
     if kind == "link":
         o, name = subject
         watched = ("trait", id(o), name) in W
         # is the position on the path at all (possibly with ':')?
-        if watched:
+        if watched and w.equal_link:
+            # the new value compares equal to the old one: under the
+            # default comparison mode that is not a change to report
+            pass
+        elif watched:
             ctx.outcome("link-reported")
             ctx.nontriv((w.pair, "link", ev))
             if len(w.legacy) < 1:
@@ -240,6 +294,12 @@ def probe(ctx, w, hist):
             ctx.outcome("after-removal-silent")
         else:
             ctx.outcome("leaf-silent-detached")
+        err = w.methods_agree()
+        if err:
+            good = False
+            ctx.violation("C16:leaf-methods-disagree:%s" % w.pair,
+                          "writing %r.value: %s" % (o, err), pair=w.pair,
+                          history=hist, eq=w.eq)
         if len(w.legacy) != exp or len(w.obs) != exp:
             good = False
             ctx.violation(
@@ -260,8 +320,8 @@ def probe(ctx, w, hist):
     return good
 
 
-def run_history(ctx, pair, hist):
-    w = World(pair)
+def run_history(ctx, pair, hist, eq=False):
+    w = World(pair, eq=eq)
     for i, ev in enumerate(hist):
         if not enabled(w, ev):
             return None, None
@@ -271,7 +331,8 @@ def run_history(ctx, pair, hist):
             if not check_last(ctx, w, ev, hist):
                 return False, None
     ok = probe(ctx, w, hist)
-    key = (pair, tree_shape(w), G.fingerprint(w.nodes), w.registered)
+    key = (pair, eq, tree_shape(w), G.fingerprint(w.nodes), w.registered,
+           w.owner_b is None)
     return ok, key
 
 
@@ -280,7 +341,8 @@ def shards(tier):
     for pair in PAIRS:
         n = len(menu(pair))
         for i in range(n):
-            out.append({"pair": pair, "first": i})
+            out.append({"pair": pair, "first": i, "eq": False})
+            out.append({"pair": pair, "first": i, "eq": True})
     return out
 
 
@@ -295,8 +357,8 @@ def run_shard(ctx, shard, tier):
         for hist in frontier:
             for ev in ([evs[shard["first"]]] if d == 1 else evs):
                 h2 = hist + [ev]
-                ctx.case({"pair": pair, "history": h2})
-                ok, key = run_history(ctx, pair, h2)
+                ctx.case({"pair": pair, "history": h2, "eq": shard["eq"]})
+                ok, key = run_history(ctx, pair, h2, eq=shard["eq"])
                 if ok is None:
                     continue
                 ctx.ev()
@@ -320,7 +382,7 @@ def replay(rec):
     ctx = Ctx("C16", None, "quick", 0)
     c = rec.get("case") or rec
     hist = [tuple(e) for e in c["history"]]
-    run_history(ctx, c["pair"], hist)
+    run_history(ctx, c["pair"], hist, eq=c.get("eq", False))
     print("pair", c["pair"], "history", hist)
     for v in ctx.violations.values():
         print("  violation:", v["sig"], v["msg"])
